@@ -1,7 +1,7 @@
 (** C19 — BDAT chunks are framed exactly and chunk boundaries never alter the message.
     Only statements here; proofs live in Proofs/Bdat*.v. *)
 From Qv Require Import Common.Bytes Gen.GenBdat Gen.GenBdatRx Model.BdatTx Model.BdatRx Spec.BdatSpec Spec.BdatRxSpec
-  Proofs.BdatDigits Proofs.BdatTxProofs Proofs.BdatSpecProofs Proofs.BdatRxNet Proofs.BdatRxPiece Proofs.BdatRxProofs.
+  Proofs.BdatDigits Proofs.BdatTxProofs Proofs.BdatSpecProofs Proofs.BdatSpecSound Proofs.BdatRxNet Proofs.BdatRxPiece Proofs.BdatRxProofs.
 
 (** * Sending side (qremote/qrbdat.c:send_bdat with fixes/C19-bdat-final-crlf.diff).
     For every message, every chunk size from 16 (the minimum that fits
@@ -29,12 +29,11 @@ Theorem C19_tx_exact : forall msg o, tx_norm msg o -> no_bare_cr msg -> o = lf2c
 Proof. exact tx_norm_exact. Qed.
 Print Assumptions C19_tx_exact.
 
-(** The boolean checker that is run on the observations of the C code accepts whatever
-    satisfies [tx_ok] (a "bad" verdict on a C output is a genuine violation), in particular
-    everything the model of the repaired code emits. *)
-Theorem C19_tx_checker : forall cs msg nok, 16 <= cs ->
-  exists ws e wn, send_bdat cs msg nok = Ok (ws, e, wn) /\ spec_ok_C19_tx cs msg (is_done e) ws = true.
-Proof. exact send_bdat_checker. Qed.
+(** The boolean checker that is run on the observations of the C code decides [tx_ok]:
+    a "bad" verdict on a C output is a genuine violation, an "ok" verdict means the
+    observation satisfies the statement above. *)
+Theorem C19_tx_checker : forall cs msg done ws, spec_ok_C19_tx cs msg done ws = true <-> tx_ok cs msg done ws.
+Proof. exact spec_tx_decides. Qed.
 Print Assumptions C19_tx_checker.
 
 (** F-C19-1: the same model with the test of the unrepaired code ([off < msgsize - 1], margin 1)
